@@ -18,16 +18,6 @@
 From SV Require Import Base.Prelude Model.Retry Model.Fiber.
 Open Scope N_scope.
 
-(* ---- decidable equalities -------------------------------------------------------------- *)
-Definition write_type_eq_dec (a b : write_type) : {a = b} + {a <> b}.
-Proof. decide equality. Defined.
-Definition db_error_eq_dec (a b : db_error) : {a = b} + {a <> b}.
-Proof. decide equality; auto using Z.eq_dec, Bool.bool_dec, write_type_eq_dec. Defined.
-Definition attempt_error_eq_dec (a b : attempt_error) : {a = b} + {a <> b}.
-Proof. decide equality; apply db_error_eq_dec. Defined.
-Definition consistency_eq_dec (a b : consistency) : {a = b} + {a <> b}.
-Proof. decide equality. Defined.
-
 Definition memN (x : N) (l : list N) : bool := existsb (N.eqb x) l.
 
 Fixpoint nodupb (l : list N) : bool :=
@@ -269,12 +259,57 @@ Definition overlap_ok (bound : nat) (frs : list frame) : bool :=
   forallb (fun f => let fl := in_flight (f_arr f) frs in
                     (List.length fl <=? bound)%nat && nodupb (map f_node fl)) frs.
 
+(* "the driver sends exactly the attempts the policy decided -- no more", on the frames of ONE fiber:
+   a frame is followed by another one only if the retry session, fed with the errors the mock
+   answered (in order, with the request's idempotence and the consistency of the failed frame),
+   decided a retry at that point.  (By C06_decide_safe this contains the safe-resend rule.) *)
+Fixpoint frames_follow (idem : bool) (s : session) (frs : list frame) : bool :=
+  match frs with
+  | [] => true
+  | f :: rest =>
+      match rest with
+      | [] => true
+      | _ :: _ =>
+          match f_ans f with
+          | AnsErr e =>
+              let (s', d) := decide s (mk_ri e idem (f_cl f)) in
+              is_retry d && frames_follow idem s' rest
+          | AnsOk | AnsNone => false
+          end
+      end
+  end.
+
+(* an EXECUTE answered UNPREPARED and repeated on the same node after a PREPARE is ONE attempt (the
+   runner merges such pairs); a record that still shows the pair is not judged by the predicate *)
+Fixpoint has_unprepared_pair (frs : list frame) : bool :=
+  match frs with
+  | [] => false
+  | f :: rest =>
+      match rest with
+      | [] => false
+      | g :: _ =>
+          (match f_ans f with AnsErr (EDbError DbUnprepared) => f_node g =? f_node f | _ => false end)
+          || has_unprepared_pair rest
+      end
+  end.
+
+(* the number of frames of one logical request: one fiber walks a plan of at most [nnodes] targets
+   and gets k same-target retries; 1 + max fibers share the plan and get k each; a Fallthrough
+   fiber makes one attempt *)
+Definition frame_bound (p : policy) (fibers nnodes : nat) : nat :=
+  match p with
+  | PFallthrough => fibers
+  | _ => nnodes + fibers * same_target_budget p
+  end.
+
 Definition prop_frames (p : policy) (idem : bool) (spec : option nat) (nnodes : nat)
            (frs : list frame) : bool :=
+  has_unprepared_pair frs ||
   match gate_open idem spec with
   | None =>
       resend_ok_frames p idem frs
-      && (List.length frs <=? nnodes + same_target_budget p)%nat
+      && frames_follow idem (new_session p) frs
+      && (List.length frs <=? frame_bound p 1 nnodes)%nat
   | Some max =>
-      (List.length frs <=? nnodes + (1 + max) * same_target_budget p)%nat
+      (List.length frs <=? frame_bound p (1 + max) nnodes)%nat
   end.
